@@ -31,6 +31,9 @@ EXACT_STREAM_KINDS = {
     # punishment theorems rest on
     "C11": {"lock.validateparams"}, "C13": {"lock.validateparams"}, "C14": {"lock.validateparams"}, "C15": {"lock.validateparams"},
     "C12": {"lock.validateparams"},
+    # the decoder of execution-layer request lists is pinned exactly (C19R.decode_none_iff / decode_encode): a list applied
+    # with other contents than it carries, or refused / accepted differently, is a request list the modules see wrongly
+    "C19": {"req.decode"},
 }
 
 
